@@ -41,7 +41,7 @@ Definition learn (kn : known) (o : op) (x : obs) : known :=
   | OpAuthorize r, Out (OPage cb) => mkKnown ((cb, ar_client r) :: k_cbs kn) (k_codes kn) (k_ats kn) (k_rts kn) (k_cibas kn)
   | OpAuthorize r, Out (ONav _ _ nv) =>
       match ar_pol r with
-      | PolSuccess sub granted res =>
+      | PolSuccess sub granted res _ =>
           (* the implicit token delivered alongside a code belongs to its own grant: origin 0 *)
           mkKnown (k_cbs kn)
             (if is_nil (n_code nv) then k_codes kn else (n_code nv, mkGI (ar_client r) sub granted (n_code nv) res false) :: k_codes kn)
@@ -51,7 +51,7 @@ Definition learn (kn : known) (o : op) (x : obs) : known :=
       end
   | OpCallback r, Out (ONav _ _ nv) =>
       match cb_pol r, lookup (cb_id r) (k_cbs kn) with
-      | PolSuccess sub granted res, Some cl =>
+      | PolSuccess sub granted res _, Some cl =>
           mkKnown (k_cbs kn)
             (if is_nil (n_code nv) then k_codes kn else (n_code nv, mkGI cl sub granted (n_code nv) res false) :: k_codes kn)
             (if is_nil (n_at nv) then k_ats kn else (n_at nv, mkGI cl sub granted 0 res false) :: k_ats kn) (k_rts kn)
@@ -411,7 +411,8 @@ Fixpoint c16life_from (cs : syscase) (cfg : config) (born : list (id * (id * Z))
                        (andb (match c_ciba_mode c with CibaPush => false | _ => true end)
                        (andb (bind_is_none (t_bind r))
                        (andb (match validate_binding cfg c (t_bind r) no_opts with None => true | Some _ => false end)
-                       (andb (is_empty (t_scope r)) (no_res (t_resources r))))))))))))
+                       (andb (is_empty (t_scope r)) (andb (no_res (t_resources r))
+                             (match t_auth_details r with None => true | Some _ => false end))))))))))))
                     then 8 else 0
                 | None => 0 end
             | None => 0 end
@@ -858,3 +859,132 @@ Definition clause_C04b (cs : syscase) (cfg : config) (f : flowst) (o : op) (x : 
   end.
 Definition mon_C04x (c : syscase) : N :=
   match mon_C04 c with 0 => run_flow_monitor (clause_C04b c) c | k => k end.
+
+(* ================================================================================== *)
+(* RFC 9396 authorization details (C04 clauses 5 and 6, C10 clause 8).  Self-contained: its own
+   knowledge of what the embedder granted to each code / auth_req_id / token, learnt from the inputs of
+   the case and the observations.  Theorems: Props/C04.v details_types_supported, details_within_grant,
+   details_decision; Props/C10.v refresh_never_widens_details. *)
+Record dinfo := mkDI { di_granted : list adetail  (* what the embedder granted; owner-less grants: what was requested *) }.
+Record dknown := mkDK {
+  dk_codes : list (id * dinfo);
+  dk_ats : list (id * dinfo);
+  dk_rts : list (id * dinfo);
+  dk_cibas : list (id * dinfo)
+}.
+Definition dknown0 : dknown := mkDK [] [] [] [].
+Definition d_add_tokens (kn : dknown) (di : dinfo) (at_ rt : id) : dknown :=
+  mkDK (dk_codes kn) (if is_nil at_ then dk_ats kn else (at_, di) :: dk_ats kn)
+       (if is_nil rt then dk_rts kn else (rt, di) :: dk_rts kn) (dk_cibas kn).
+Definition opt_list (d : opt_details) : list adetail := match d with Some l => l | None => [] end.
+Definition d_learn_nav (kn : dknown) (pol : pol_reply) (nv : nav) : dknown :=
+  match pol with
+  | PolSuccess _ _ _ det =>
+      mkDK (if is_nil (n_code nv) then dk_codes kn else (n_code nv, mkDI det) :: dk_codes kn)
+           (if is_nil (n_at nv) then dk_ats kn else (n_at nv, mkDI det) :: dk_ats kn) (dk_rts kn) (dk_cibas kn)
+  | _ => kn
+  end.
+Definition d_learn (kn : dknown) (o : op) (x : obs) : dknown :=
+  match o, x with
+  | OpAuthorize r, Out (ONav _ _ nv) => d_learn_nav kn (ar_pol r) nv
+  | OpCallback r, Out (ONav _ _ nv) => d_learn_nav kn (cb_pol r) nv
+  | OpToken GAuthorizationCode r, Out (OTokens t) =>
+      match lookup (t_code r) (dk_codes kn) with Some di => d_add_tokens kn di (tr_at t) (tr_rt t) | None => kn end
+  | OpToken GRefreshToken r, Out (OTokens t) =>
+      match lookup (t_refresh r) (dk_rts kn) with Some di => d_add_tokens kn di (tr_at t) (tr_rt t) | None => kn end
+  | OpToken GClientCredentials r, Out (OTokens t) => d_add_tokens kn (mkDI (opt_list (t_auth_details r))) (tr_at t) 0
+  (* jwt-bearer records no authorization detail at all *)
+  | OpToken GJwtBearer r, Out (OTokens t) => d_add_tokens kn (mkDI []) (tr_at t) (tr_rt t)
+  | OpBcAuthorize r, Out (OCiba a _) =>
+      mkDK (dk_codes kn) (dk_ats kn) (dk_rts kn) ((a, mkDI (br_granted_details r)) :: dk_cibas kn)
+  | OpToken GCiba r, Out (OTokens t) =>
+      match lookup (t_auth_req r) (dk_cibas kn) with Some di => d_add_tokens kn di (tr_at t) (tr_rt t) | None => kn end
+  | OpNotifyOk a _, Notified true (nf :: _) =>
+      match lookup a (dk_cibas kn) with Some di => d_add_tokens kn di (nf_at nf) (nf_rt nf) | None => kn end
+  | _, _ => kn
+  end.
+
+Section DDriver.
+  Variable clause : config -> dknown -> op -> obs -> N.
+  Fixpoint d_drive (cfg : config) (kn : dknown) (k : nat) (ops : list op) (xs : list obs) : N :=
+    match ops, xs with
+    | o :: ops', x :: xs' =>
+        match clause cfg kn o x with
+        | 0 => d_drive cfg (d_learn kn o x) (S k) ops' xs'
+        | c => viol c k
+        end
+    | _, _ => 0
+    end.
+End DDriver.
+Definition run_details_monitor clause (c : syscase) : N :=
+  match build (sc_profile c) (sc_opts c) with
+  | Some cfg => d_drive clause cfg dknown0 0%nat (sc_ops c) (sc_obs c)
+  | None => 0
+  end.
+
+(* every reported detail has a type the server supports (none at all when the feature is off) *)
+Definition d_supported (cfg : config) (l : list adetail) : bool :=
+  if cf_auth_details_enabled cfg then types_supported (cf_auth_detail_types cfg) l
+  else match l with [] => true | _ => false end.
+(* reported details stay within the grant, as far as the compare function the embedder installed
+   promises: by equality (CmpSubset; CmpNone lets no request through), by type (CmpTypes), nothing
+   (CmpAcceptAll: the embedder accepts whatever is asked) *)
+Definition d_within (cfg : config) (di : dinfo) (l : list adetail) : bool :=
+  match cf_details_cmp cfg with
+  | CmpSubset | CmpNone => ad_subset l (di_granted di)
+  | CmpTypes => subset (ad_types l) (ad_types (di_granted di))
+  | CmpAcceptAll => true
+  end.
+Definition d_reported (t : tresp) : list adetail := (tr_details t ++ tr_jwt_details t)%list.
+(* sup: clause number for an unsupported type, out: clause number for a detail outside the grant *)
+Definition d_check (sup out : N) (cfg : config) (odi : option dinfo) (strict : bool) (l : list adetail) : N :=
+  if negb (d_supported cfg l) then sup else
+  match odi with
+  | Some di => if (if strict then ad_subset l (di_granted di) else d_within cfg di l) then 0 else out
+  | None => 0
+  end.
+Definition d_clause (sup out : N) (refresh_only : bool) (cfg : config) (kn : dknown) (o : op) (x : obs) : N :=
+  match o, x with
+  | OpToken GRefreshToken r, Out (OTokens t) => d_check sup out cfg (lookup (t_refresh r) (dk_rts kn)) false (d_reported t)
+  | OpToken GAuthorizationCode r, Out (OTokens t) =>
+      if refresh_only then 0 else d_check sup out cfg (lookup (t_code r) (dk_codes kn)) false (d_reported t)
+  | OpToken GCiba r, Out (OTokens t) =>
+      if refresh_only then 0 else d_check sup out cfg (lookup (t_auth_req r) (dk_cibas kn)) false (d_reported t)
+  (* owner-less: exactly within what was requested, whatever the compare function *)
+  | OpToken GClientCredentials r, Out (OTokens t) =>
+      if refresh_only then 0 else d_check sup out cfg (Some (mkDI (opt_list (t_auth_details r)))) true (d_reported t)
+  | OpToken GJwtBearer r, Out (OTokens t) =>
+      if refresh_only then 0 else d_check sup out cfg (Some (mkDI [])) true (d_reported t)
+  | OpNotifyOk a _, Notified _ ns =>
+      if refresh_only then 0 else
+      fold_left (fun acc nf => match acc with 0 => d_check sup out cfg (lookup a (dk_cibas kn)) false (nf_details nf) | v => v end) ns 0
+  | OpIntrospect r, Out (OIntro i) =>
+      if negb (in_active i) then 0 else
+      d_check sup out cfg (lookup (ptok_exact (q_tok r)) (if in_refresh i then dk_rts kn else dk_ats kn)) false (in_details i)
+  | OpTokenInfo p, Out (OIntro i) =>
+      if negb (in_active i) then 0 else
+      d_check sup out cfg (lookup (ptok_exact p) (if in_refresh i then dk_rts kn else dk_ats kn)) false (in_details i)
+  | _, _ => 0
+  end.
+(* C04 clause 5: a reported authorization detail of a type the server does not support; clause 6: outside the grant *)
+Definition mon_C04d : syscase -> N := run_details_monitor (d_clause 5 6 false).
+(* C10 clause 10: a refresh (or what introspection reports afterwards) widened the authorization details *)
+(* C10 clause 11: "later refreshes may return to the full grant" - a refresh that names no authorization
+   details answers with all the granted ones *)
+Definition d_clause_C10 (cfg : config) (kn : dknown) (o : op) (x : obs) : N :=
+  match d_clause 10 10 true cfg kn o x with
+  | 0 =>
+      match o, x with
+      | OpToken GRefreshToken r, Out (OTokens t) =>
+          match t_auth_details r, lookup (t_refresh r) (dk_rts kn) with
+          | None, Some di =>
+              if andb (cf_auth_details_enabled cfg) (negb (ad_list_eqb (tr_details t) (di_granted di))) then 11 else 0
+          | _, _ => 0
+          end
+      | _, _ => 0
+      end
+  | v => v
+  end.
+Definition mon_C10d : syscase -> N := run_details_monitor d_clause_C10.
+Definition mon_C04xd (c : syscase) : N := match mon_C04x c with 0 => mon_C04d c | k => k end.
+Definition mon_C10xd (c : syscase) : N := match mon_C10x c with 0 => mon_C10d c | k => k end.
